@@ -19,7 +19,8 @@ DESIGN_REF = '5/C14'
 TECHNIQUE = ('exhaustive crash-point enumeration of the real write_env / read_env: every byte prefix, zero-filled tail, empty / missing '
              'file and directory-in-place of every per-task environment file, plus explicit-state BFS over histories of writes, crashes '
              'during a write and reads, against a dictionary of acknowledged DONE entries')
-RULE = ('(crash) for every environment of the alphabet (1-3 tasks; statuses WAITING/PENDING/DONE/FAILED/SKIPPED; with / without '
+RULE = ('[task names with one and two path separators (nested output directories)] ' +
+        '(crash) for every environment of the alphabet (1-3 tasks; statuses WAITING/PENDING/DONE/FAILED/SKIPPED; with / without '
         'output_dir; payloads int, nested dict/list, numpy array, Dataset, TestResult): write_env, then for every written file every '
         'prefix length b in [0, size), a zero-filled tail at every b, the missing file and a directory in its place [thorough: every '
         'single-byte substitution by 0x00, 0x2e, 0x80, 0xff when the result is unreadable]; read_env must not raise, the damaged task '
